@@ -24,6 +24,7 @@ class Ctx:
         self.nd = 0                 # free decisions taken so far
         self.trace = []             # (z3 cond, value, forced)
         self.decisions = []         # values of free decisions in order
+        self.dec_pos = []           # trace index of every recorded decision (same order as `decisions`)
         self.domains = {}           # var name -> list of python values (declared finite domains)
         self.qtimeout = qtimeout
         self.nq = 0
@@ -85,6 +86,7 @@ class Ctx:
             val, forced = self.prefix[self.nd]
             self.nd += 1
             self.decisions.append([val, forced])
+            self.dec_pos.append(len(self.trace))
             self.trace.append((cond, val, forced))
             return val
         rt = self.feasible(cond)
@@ -101,6 +103,7 @@ class Ctx:
         val = can_t
         self.nd += 1
         self.decisions.append([val, forced])
+        self.dec_pos.append(len(self.trace))
         self.trace.append((cond, val, forced))
         return val
 
